@@ -11,8 +11,8 @@ FULL = ("md5", "sha1", "sha256", "sha512")
 META = {
     "bounds": "HMAC over GOST R 34.11-2012 256/512 (ghmac.c; B = 64): the same entry points, oracle RFC 2104 over the RFC 6986 "
               "stage structure with the two compression entry points abstracted; quick (KLEN,MLEN,SPLIT) = 256: (0,0,0),(65,1,1),"
-              "(129,64,1); 512: (32,0,0),(64,63,1),(65,65,64); thorough key lengths {0,1,32,63,64,65,66,128,129} x message "
-              "lengths {0,1,63,64,66} x splits {0,1,MLEN}; one-shot/get_digest/hex entry points on the shapes with MLEN <= 1 "
+              "(129,64,1); 512: (32,0,0),(64,63,1),(65,65,64); thorough key lengths {0,1,32,64,65,129} x message "
+              "lengths {0,1,64,66} x splits {0,1,MLEN}; one-shot/get_digest/hex entry points on the shapes with MLEN <= 1 "
               "(quick: on (0,0,0) of the 256-bit variant only). "
               "HMAC over MD5, SHA-1, SHA-224/256/384/512 (portable build): hmac_*_init/_update/_final with the message in two "
               "updates, one-shot hmac_*(), *_hmac_get_digest(), *_hmac_get_digest_str(); key bytes, message bytes and "
@@ -69,8 +69,8 @@ def gost_shapes(bits, tier):
         if bits == 256:
             return [(0, 0, 0), (65, 1, 1), (129, 64, 1)]
         return [(32, 0, 0), (64, 63, 1), (65, 65, 64)]
-    ks = [0, 1, 32, 63, 64, 65, 66, 128, 129]
-    ms = [0, 1, 63, 64, 66]
+    ks = [0, 1, 32, 64, 65, 129]
+    ms = [0, 1, 64, 66]
     out = []
     for k in ks:
         for m in ms:
